@@ -515,9 +515,10 @@ func c05Scenarios(thorough bool) []c05Scenario {
 	}
 	if !thorough {
 		// suites restricted to one run mode / protocol, in every mode (no filters, one slot)
-		for _, mode := range []string{"both", "client", "server"} {
-			out = append(out, c05Scenario{Cfg: "A2", Suites: "mix", Mode: mode, MaxServers: 1, FailStart: -1})
-		}
+		// (in client and server mode the five suites with the gRPC reference peers do not finish within the
+		// quick budget even without preemptions; the c05-tls unit runs them at the default schedule, and the
+		// thorough tier explores them)
+		out = append(out, c05Scenario{Cfg: "A2", Suites: "mix", Mode: "both", MaxServers: 1, FailStart: -1})
 	}
 	for _, cfg := range cfgs {
 		for _, su := range suites {
@@ -619,6 +620,7 @@ func TestVerifC05(t *testing.T) {
 			if s, ok := sc.(c05Scenario); ok && s.ClientFault != "" && s.Cfg == "A3" {
 				return 0, true
 			}
+
 			return 0, false
 		}
 		r.Note("scenarios with cfg=A3 and a client fault are explored with preemption bound 0 in the quick tier")
